@@ -4,7 +4,7 @@
 
 use serde_json::{json, Value};
 
-use crate::{checks::graphs, pipe::{self, Input}, report::*, sched, spec::*, util};
+use crate::{checks::{graphs, hier}, pipe::{self, Input}, report::*, sched, spec::*, util};
 
 #[derive(Clone, Debug)]
 pub struct Corpus {
@@ -190,6 +190,32 @@ pub fn corpus(tier: &str) -> Vec<Corpus> {
         out.push(Corpus { input: Input { modules: vec![("a".into(), mk(1)), ("b".into(), mk(2)), ("o".into(), format!("{o}{ev}"))] }, features: vec!["ambiguous_imports".into()] });
         out.push(Corpus { input: Input { modules: vec![("a".into(), mk(1)), ("b".into(), mk(2)), ("o".into(), format!("{o}{ev}{}", mk(3)))] }, features: vec!["ambiguous_imports".into()] });
     }
+    // inheritance shapes (repeated and diamond bases, vftables at any level): what is emitted per
+    // ancestor (conversions, ambiguity notices, re-exposed members) must not depend on hash seeds
+    for n in 2..=4 {
+        for h in hier::shapes_limited(n, if n == 4 && tier != "thorough" { 2 } else { 3 }) {
+            if h.types.iter().any(|t| t.lead) {
+                continue;
+            }
+            let mut features = vec!["hierarchy".to_string()];
+            if n == 4 && tier != "thorough" {
+                // quick: only shapes in which every type is an ancestor of the youngest one (the others are
+                // 3-type shapes plus a bystander), built repeatedly but not schedule-explored
+                let mut anc = vec![false; n];
+                let mut stack = vec![n - 1];
+                while let Some(t) = stack.pop() {
+                    if !std::mem::replace(&mut anc[t], true) {
+                        stack.extend(h.types[t].bases.iter().copied());
+                    }
+                }
+                if anc.iter().any(|a| !a) {
+                    continue;
+                }
+                features.push("repeated_builds_only".into());
+            }
+            out.push(Corpus { input: to_input(&[hier::module_of(&h)]), features });
+        }
+    }
     // dependency graphs (by-value chains, cycles, pointer cycles, undefined names)
     for g in graphs::graph_inputs(tier, true) {
         out.push(Corpus { input: g.input, features: vec!["graph".into()] });
@@ -204,7 +230,7 @@ pub fn add_orders(n_modules: usize) -> Vec<Vec<usize>> {
 pub fn run(tier: &str, only: Option<&Value>) -> i32 {
     let mut rep = Report::new("C09", tier);
     let all = corpus(tier);
-    rep.rule = "E2: for every input set of the corpus (a vftable owner whose generated FooVftable item appears late, referrers naming it from fields / signatures / extern values / imports, derived types, dependency graphs): all module-addition orders x all per-pass permutations of the resolution worklist, BFS with de-duplication of pass-boundary registry states, every execution on the real SemanticState::build via the cfg(pyxis_verif) hook; plus each input built twice more in-process without scheduler (fresh hash seeds). Invariant: one outcome class and byte-identical files. distinct = input sets with more than one reachable pass-boundary state".into();
+    rep.rule = "E2: for every input set of the corpus (a vftable owner whose generated FooVftable item appears late, referrers naming it from fields / signatures / extern values / imports, derived types, inheritance shapes of up to 4 types (at most two bases per type at 4 in quick) with diamond and repeated ancestors, dependency graphs): all module-addition orders x all per-pass permutations of the resolution worklist, BFS with de-duplication of pass-boundary registry states, every execution on the real SemanticState::build via the cfg(pyxis_verif) hook; plus each input built twice more in-process without scheduler (fresh hash seeds; 24 times for ambiguous imports, 12 times for inheritance shapes). Invariant: one outcome class and byte-identical files. distinct = input sets with more than one reachable pass-boundary state".into();
     rep.assumptions = vec![
         "the hook permutes the worklist at pass boundaries only and keeps it stable inside a pass, as a HashMap does between rehashes".into(),
         "the two other HashMap iteration sites (extern-value resolution, file writing) cannot change the compared outcome; they are exercised through add-order permutation and repeated builds".into(),
@@ -221,9 +247,9 @@ pub fn run(tier: &str, only: Option<&Value>) -> i32 {
         let outs = util::par_map(idxs.len(), |j, _| {
             let c = &all[idxs[j]];
             let orders = add_orders(c.input.modules.len());
-            let mut ex = sched::explore(&c.input, ps, &orders, cap);
+            let mut ex = if c.features.iter().any(|f| f == "repeated_builds_only") { sched::Exploration::default() } else { sched::explore(&c.input, ps, &orders, cap) };
             // supplementary: plain builds with fresh RandomState
-            let reps = if c.features.iter().any(|f| f == "ambiguous_imports") { 24 } else { 2 };
+            let reps = if c.features.iter().any(|f| f == "ambiguous_imports") { 24 } else if c.features.iter().any(|f| f == "hierarchy") { 12 } else { 2 };
             for _ in 0..reps {
                 for o in &orders {
                     let inp = Input { modules: o.iter().map(|&i| c.input.modules[i].clone()).collect() };
